@@ -63,6 +63,7 @@ const (
 	fpDoneNoWrite = "done-without-write"
 	fpHalf        = "write-without-commit-or-done"
 	fpStore       = "store-differs-from-last-batchwrite"
+	fpRegress     = "store-regressed-to-older-version"
 )
 
 // caseGuard bounds the time one run may go WITHOUT observable progress (no harness event logged,
@@ -96,7 +97,14 @@ type caseRec struct {
 	JitterPct  int    `json:"jitter_pct,omitempty"`
 	DoubleStop bool   `json:"double_stop,omitempty"`
 	SameObj    bool   `json:"same_object,omitempty"` // coldstart: all first Enqueues on one object
-	CaseSeed   int64  `json:"case_seed"`
+	// multi-writer family
+	Opts    string    `json:"opts,omitempty"`     // which options the constructor gets: "" = all three, "timeout", "timeout+batch"
+	Extreme bool      `json:"extreme,omitempty"`  // huge time-out and batch size: only Flush can commit; never stopped (Stop waits one batch time-out on the unchanged tree)
+	Subs    []caseRec `json:"writers,omitempty"`  // kind multi: the writers, in construction order
+	MultiOf *caseRec  `json:"multi_of,omitempty"` // set on a writer's record: the multi case to replay
+	// flush-boundary family
+	FlushK, FlushD, After int   `json:",omitempty"` // Flush while k*batchSize+d objects are collected/queued (incl. one re-enqueue); further objects afterwards
+	CaseSeed              int64 `json:"case_seed"`
 	// observations of a violating run
 	Fingerprint string   `json:"fingerprint,omitempty"`
 	Log         []string `json:"log,omitempty"`
@@ -127,6 +135,9 @@ func (cs *caseRec) idleBound() time.Duration {
 	if d < 0 {
 		d = -d
 	}
+	if d > 24*time.Hour {
+		return 500 * 24 * time.Hour // undecidable in practice: such writers are never judged by R3
+	}
 	if d *= 500; d < 2*time.Second {
 		d = 2 * time.Second
 	}
@@ -153,10 +164,11 @@ type mon struct {
 	evs  []ev
 	// writer-side progress, kept in bare runs too
 	wev        atomic.Int64 // number of writer-side calls observed (Batched, BatchWrite, Reset, Commit, Cancel, Done)
-	emptyLoops atomic.Int64 // store.Batched() calls that directly followed the Cancel of an empty batch
+	emptyLoops atomic.Int64 // empty collection rounds: Cancel calls on an empty batch
 	lastWK     byte         // last writer-side kind; only touched by the writer goroutine
 	nW, nD     atomic.Int64 // BatchWrite / BatchWriteDone calls
 	hev        atomic.Int64 // caller-side events (Enqueue/Stop/Flush calls and returns, yield points)
+	regress    []string     // findings of the per-Commit store check (under mu)
 	compacted  int          // empty N/X pairs dropped from the log (a time-out <= 0 makes an idle writer spin)
 }
 
@@ -168,18 +180,26 @@ func (m *mon) log(e ev) {
 		return
 	}
 	m.mu.Lock()
-	if n := len(m.evs); e.K == 'N' && n >= 4 && m.evs[n-1].K == 'X' && m.evs[n-2].K == 'N' && m.evs[n-3].K == 'X' && m.evs[n-4].K == 'N' {
-		// third empty spin in a row: keep two
-		m.evs = m.evs[:n-2]
-		m.compacted++
+	if n := len(m.evs); (e.K == 'N' || e.K == 'X') && n >= 4 && idleKind(m.evs[n-1].K) && idleKind(m.evs[n-2].K) && idleKind(m.evs[n-3].K) && idleKind(m.evs[n-4].K) {
+		// an idle writer cycling through empty batches (it spins with a time-out <= 1ns): the log
+		// keeps the first four such events of a streak, the rest is only counted
+		if e.K == 'X' {
+			m.compacted++
+		}
+		m.mu.Unlock()
+		return
 	}
 	m.evs = append(m.evs, e)
 	m.mu.Unlock()
 }
 
+func idleKind(k byte) bool { return k == 'N' || k == 'X' }
+
 // wlog records a writer-side event.
 func (m *mon) wlog(e ev) {
-	if e.K == 'N' && m.lastWK == 'X' {
+	if e.K == 'X' {
+		// an empty batch was cancelled = one empty collection round ended (whether or not the
+		// writer asks the store for a new batch afterwards)
 		m.emptyLoops.Add(1)
 	}
 	m.lastWK = e.K
@@ -205,10 +225,10 @@ func (m *mon) copyEvs() []ev {
 	return append([]ev(nil), m.evs...)
 }
 
-// loopedEmptySince: since emptyLoops had the value l0 the writer cancelled an empty batch and
-// then asked for a new one (two increments guarantee that the Cancel came after l0 was read),
-// i.e. it evaluated its loop condition with nothing collectable and stayed: it is waiting for
-// a counted object that is not in the queue.
+// loopedEmptySince: since emptyLoops had the value l0 the writer ended two empty collection rounds
+// (the second one began after the first Cancel, which came after l0 was read), i.e. in between it
+// evaluated its loop condition with nothing collectable and stayed: it is waiting for a counted
+// object that is not in the queue.
 func (m *mon) loopedEmptySince(l0 int64) bool { return m.emptyLoops.Load() >= l0+2 }
 
 func fmtEv(t int, e ev) string {
@@ -266,6 +286,10 @@ func (o *obj) BatchWrite(bm kvstore.BatchedMutations) {
 		b = w.id
 	}
 	o.s.m.wlog(ev{K: 'W', P: -1, O: o.id, V: v, B: b})
+	if g := o.s.writeGate; g != nil && g.used.CompareAndSwap(false, true) {
+		close(g.reached) // the writer is held between reading the version and adding the mutation
+		<-g.release
+	}
 	var buf [8]byte
 	binary.BigEndian.PutUint64(buf[:], uint64(v))
 	if err := bm.Set(o.key, buf[:]); err != nil {
@@ -319,6 +343,8 @@ type wstore struct {
 	kvstore.KVStore
 	m  *mon
 	nb atomic.Int32
+	// highest version committed per key; only touched by the writer goroutine (inside Commit)
+	maxCommitted map[string]int64
 }
 
 func (w *wstore) Batched() (kvstore.BatchedMutations, error) {
@@ -328,13 +354,22 @@ func (w *wstore) Batched() (kvstore.BatchedMutations, error) {
 	}
 	id := int(w.nb.Add(1))
 	w.m.wlog(ev{K: 'N', P: -1, B: id})
-	return &wmuts{BatchedMutations: inner, id: id, m: w.m}, nil
+	return &wmuts{BatchedMutations: inner, id: id, m: w.m, st: w, sets: map[string]int64{}}, nil
 }
 
 type wmuts struct {
 	kvstore.BatchedMutations
-	id int
-	m  *mon
+	id   int
+	m    *mon
+	st   *wstore
+	sets map[string]int64 // mirrors the mutations object: key -> version to be written by Commit
+}
+
+func (w *wmuts) Set(key kvstore.Key, value kvstore.Value) error {
+	if len(value) == 8 {
+		w.sets[string(key)] = int64(binary.BigEndian.Uint64(value))
+	}
+	return w.BatchedMutations.Set(key, value)
 }
 
 func (w *wmuts) Commit() error {
@@ -343,10 +378,22 @@ func (w *wmuts) Commit() error {
 	if err != nil {
 		panic(fmt.Sprintf("mapdb commit failed: %v", err))
 	}
+	// check 4 right after each Commit: a commit must not put an older version of an object over a
+	// newer one that was committed before (e.g. a mutations object committed a second time)
+	for k, v := range w.sets {
+		if old := w.st.maxCommitted[k]; v < old {
+			w.m.mu.Lock()
+			w.m.regress = append(w.m.regress, fmt.Sprintf("Commit of batch%d wrote %s = version %d over version %d committed earlier", w.id, k, v, old))
+			w.m.mu.Unlock()
+		} else {
+			w.st.maxCommitted[k] = v
+		}
+	}
 	w.m.wlog(ev{K: 'c', P: -1, B: w.id})
 	return nil
 }
 func (w *wmuts) Cancel() {
+	clear(w.sets)
 	w.m.wlog(ev{K: 'X', P: -1, B: w.id})
 	w.BatchedMutations.Cancel()
 }
@@ -354,6 +401,7 @@ func (w *wmuts) Cancel() {
 // ---------------------------------------------------------------- scenario runtime
 
 type actor struct {
+	s         *scen
 	idx       int
 	role      string // main | producer | stopper
 	gid       atomic.Uint64
@@ -388,13 +436,23 @@ type scen struct {
 	writerIdle bool
 	abortAfter bool
 	doneGate   *gate // set before the first Enqueue
+	writeGate  *gate // holds the writer inside the first BatchWrite of the run (after it read the version)
+	multi      bool  // other BatchedWriters are alive in this process, see mine()
+	// beforeStop, when set, is waited for by every Stop caller (multi-writer family: all writers
+	// have been constructed)
+	beforeStop <-chan struct{}
 }
 
-var cur atomic.Pointer[scen]
+var cur atomic.Pointer[scen] // informational only; the hook dispatches by goroutine id
+
+// allActors: goroutine id -> *actor for every caller goroutine of every live scenario (several
+// scenarios run concurrently in the multi-writer family).
+var allActors sync.Map
 
 func hook(point string) {
-	if s := cur.Load(); s != nil {
-		s.yield(point)
+	if v, ok := allActors.Load(gdump.GoID()); ok {
+		a := v.(*actor)
+		a.s.yield(a, point)
 	}
 }
 
@@ -405,12 +463,7 @@ func (s *scen) actorIdx() int {
 	return -2
 }
 
-func (s *scen) yield(point string) {
-	v, ok := s.byGid.Load(gdump.GoID())
-	if !ok {
-		return
-	}
-	a := v.(*actor)
+func (s *scen) yield(a *actor, point string) {
 	k := byte('A')
 	if point == pointB {
 		k = 'B'
@@ -440,8 +493,16 @@ func (s *scen) yield(point string) {
 
 func newScen(c *vf.Ctx, cs *caseRec, nobj int) *scen {
 	s := &scen{c: c, cs: cs, m: &mon{bare: cs.Bare}, inner: mapdb.NewMapDB(), start: time.Now()}
-	s.bw = kvstore.NewBatchedWriter(&wstore{KVStore: s.inner, m: s.m},
-		kvstore.WithQueueSize(cs.Q), kvstore.WithBatchSize(cs.B), kvstore.WithBatchTimeout(cs.timeout()))
+	var opts []kvstore.Option
+	switch cs.Opts {
+	case "timeout":
+		opts = []kvstore.Option{kvstore.WithBatchTimeout(cs.timeout())}
+	case "timeout+batch":
+		opts = []kvstore.Option{kvstore.WithBatchTimeout(cs.timeout()), kvstore.WithBatchSize(cs.B)}
+	default:
+		opts = []kvstore.Option{kvstore.WithQueueSize(cs.Q), kvstore.WithBatchSize(cs.B), kvstore.WithBatchTimeout(cs.timeout())}
+	}
+	s.bw = kvstore.NewBatchedWriter(&wstore{KVStore: s.inner, m: s.m, maxCommitted: map[string]int64{}}, opts...)
 	for i := 0; i < nobj; i++ {
 		s.objs = append(s.objs, &obj{s: s, id: i, key: []byte(fmt.Sprintf("obj%d", i))})
 	}
@@ -450,9 +511,10 @@ func newScen(c *vf.Ctx, cs *caseRec, nobj int) *scen {
 
 // self registers the calling goroutine as an actor.
 func (s *scen) self(role string) *actor {
-	a := &actor{idx: len(s.actors), role: role, done: make(chan struct{})}
+	a := &actor{s: s, idx: len(s.actors), role: role, done: make(chan struct{})}
 	a.gid.Store(gdump.GoID())
 	s.byGid.Store(a.gid.Load(), a)
+	allActors.Store(a.gid.Load(), a)
 	harnessGids.Store(a.gid.Load(), true)
 	s.actors = append(s.actors, a)
 	return a
@@ -460,7 +522,7 @@ func (s *scen) self(role string) *actor {
 
 // spawn starts a registered actor goroutine; it runs f after start is closed.
 func (s *scen) spawn(role string, seed int64, start <-chan struct{}, f func(a *actor)) *actor {
-	a := &actor{idx: len(s.actors), role: role, done: make(chan struct{})}
+	a := &actor{s: s, idx: len(s.actors), role: role, done: make(chan struct{})}
 	if seed != 0 {
 		a.rng = rand.New(rand.NewSource(seed))
 	}
@@ -471,6 +533,7 @@ func (s *scen) spawn(role string, seed int64, start <-chan struct{}, f func(a *a
 		id := gdump.GoID()
 		a.gid.Store(id)
 		s.byGid.Store(id, a)
+		allActors.Store(id, a)
 		harnessGids.Store(id, true)
 		close(reg)
 		if start != nil {
@@ -490,6 +553,9 @@ func (s *scen) enqueue(a *actor, o *obj) {
 }
 
 func (s *scen) stop(a *actor) {
+	if s.beforeStop != nil {
+		<-s.beforeStop
+	}
 	s.m.log(ev{K: 'S', P: a.idx})
 	s.bw.StopBatchWriter()
 	s.m.log(ev{K: 's', P: a.idx})
@@ -547,7 +613,7 @@ var writerSightings atomic.Int64
 func (s *scen) probeWriter() bool {
 	s.c.Count("writer_probes_where_one_must_exist", 1)
 	s.c.Count("snapshots", 1)
-	if _, ok := liveWriter(gdump.Snapshot()); ok {
+	if _, ok := s.liveWriter(gdump.Snapshot()); ok {
 		if writerSightings.Add(1) == 1 {
 			s.c.Emit("sighting", 1)
 		}
@@ -579,7 +645,13 @@ func (s *scen) snapshot() []gdump.G {
 
 // leakedWriters: writer goroutines of earlier runs of this process that rule R3 decided to be
 // idle for ever (they stay parked in their select); later runs must not mistake them for their own.
-var leakedWriters = map[uint64]bool{}
+var (
+	leakedMu      sync.Mutex
+	leakedWriters = map[uint64]bool{}
+)
+
+func isLeaked(id uint64) bool { leakedMu.Lock(); defer leakedMu.Unlock(); return leakedWriters[id] }
+func markLeaked(id uint64)    { leakedMu.Lock(); leakedWriters[id] = true; leakedMu.Unlock() }
 
 // harnessGids: ids of every goroutine this process created for (or used as) a caller.
 var harnessGids sync.Map
@@ -601,7 +673,7 @@ func isHarnessGoroutine(g gdump.G) bool {
 // Callers are told apart by id/creator, never by unexported names.
 func liveWriter(gs []gdump.G) (gdump.G, bool) {
 	for _, g := range gs {
-		if strings.Contains(g.Raw, kvPkg) && !isHarnessGoroutine(g) && !leakedWriters[g.ID] {
+		if strings.Contains(g.Raw, kvPkg) && !isHarnessGoroutine(g) && !isLeaked(g.ID) {
 			return g, true
 		}
 	}
@@ -610,7 +682,7 @@ func liveWriter(gs []gdump.G) (gdump.G, bool) {
 
 func liveWriters(gs []gdump.G) (out []gdump.G) {
 	for _, g := range gs {
-		if strings.Contains(g.Raw, kvPkg) && !isHarnessGoroutine(g) && !leakedWriters[g.ID] {
+		if strings.Contains(g.Raw, kvPkg) && !isHarnessGoroutine(g) && !isLeaked(g.ID) {
 			out = append(out, g)
 		}
 	}
@@ -630,6 +702,45 @@ func (s *scen) settled() bool {
 }
 
 func writerAlive(gs []gdump.G) bool { _, ok := liveWriter(gs); return ok }
+
+var createdInRe = regexp.MustCompile(`\ncreated by [^\n]* in goroutine (\d+)`)
+
+// mine: in the multi-writer family several BatchedWriters are alive in one process; a writer
+// goroutine belongs to the scenario whose actor created it ("created by ... in goroutine N": the
+// goroutine that made this writer's first Enqueue). Single-writer runs take every writer goroutine.
+func (s *scen) mine(g gdump.G) bool {
+	if !s.multi {
+		return true
+	}
+	m := createdInRe.FindStringSubmatch(g.Raw)
+	if m == nil {
+		return false
+	}
+	for _, a := range s.actors {
+		if fmt.Sprint(a.gid.Load()) == m[1] {
+			return true
+		}
+	}
+	return false
+}
+
+func (s *scen) liveWriters(gs []gdump.G) (out []gdump.G) {
+	for _, g := range liveWriters(gs) {
+		if s.mine(g) {
+			out = append(out, g)
+		}
+	}
+	return
+}
+
+func (s *scen) liveWriter(gs []gdump.G) (gdump.G, bool) {
+	if ws := s.liveWriters(gs); len(ws) > 0 {
+		return ws[0], true
+	}
+	return gdump.G{}, false
+}
+
+func (s *scen) writerAlive(gs []gdump.G) bool { _, ok := s.liveWriter(gs); return ok }
 
 // idleTracker measures for how long the writer goroutine has been parked in the select of
 // its own select (innermost non-runtime frame in package kvstore) without any writer-side event. Every way out of that
@@ -747,7 +858,7 @@ func (s *scen) finishWait() (ok bool) {
 			}
 		}
 		gs := s.snapshot()
-		wg, wa := liveWriter(gs)
+		wg, wa := s.liveWriter(gs)
 		if all && !wa {
 			return true
 		}
@@ -774,7 +885,7 @@ func (s *scen) finishWait() (ok bool) {
 				idle.observe(s.m, wg, false)
 				spinBase = -1
 			} else {
-				ws := liveWriters(gs)
+				ws := s.liveWriters(gs)
 				allRecv := true
 				for _, g := range ws {
 					if !strings.HasPrefix(g.State, "chan receive") || !selectInKvstore(g) {
@@ -800,7 +911,7 @@ func (s *scen) finishWait() (ok bool) {
 					var dump strings.Builder
 					for _, g := range ws {
 						dump.WriteString("\n\n" + g.Raw)
-						leakedWriters[g.ID] = true
+						markLeaked(g.ID)
 					}
 					for _, a := range waiting {
 						a.hung, a.dump = decided, a.dump+dump.String()
@@ -956,7 +1067,11 @@ func (s *scen) analyze() *analysis {
 	an.enqCalls, an.writes = len(enqs), len(writes)
 	s.m.mu.Lock()
 	an.empty += s.m.compacted
+	regress := append([]string(nil), s.m.regress...)
 	s.m.mu.Unlock()
+	if len(regress) > 0 {
+		add(fpRegress, "%s (BatchWriteDone had been delivered for the newer write); %d such commits in this run", regress[0], len(regress))
+	}
 	for _, w := range writes {
 		if w.commit < 0 || w.done < 0 {
 			add(fpHalf, "obj%d.BatchWrite at tick %d (batch%d) but at the end of the run commit=%v done=%v (writer goroutine gone or idle for ever)", w.o, w.t, w.b, w.commit >= 0, w.done >= 0)
@@ -1176,6 +1291,10 @@ func runCase(c *vf.Ctx, cs *caseRec) (fps []string, ok bool) {
 		return runColdStart(c, cs)
 	case "slowdone":
 		return runSlowDone(c, cs)
+	case "multi":
+		return runMulti(c, cs)
+	case "flushk":
+		return runFlushK(c, cs)
 	case "stress":
 		return runStress(c, cs)
 	}
@@ -1228,7 +1347,7 @@ func runGated(c *vf.Ctx, cs *caseRec) ([]string, bool) {
 	for {
 		ret := closed(st.done)
 		gs := s.snapshot()
-		wg, wa := liveWriter(gs)
+		wg, wa := s.liveWriter(gs)
 		sg, found := gdump.Find(gs, st.gid.Load())
 		parkedNoWriter := !wa && found && inStopWait(sg) // rule R2 will decide
 		// release decision only (no verdict): a writer that sits in its select without events for
@@ -1312,7 +1431,7 @@ func runDupFlush(c *vf.Ctx, cs *caseRec) ([]string, bool) {
 	served := ""
 	for served == "" {
 		gs := s.snapshot()
-		wg, wa := liveWriter(gs)
+		wg, wa := s.liveWriter(gs)
 		switch {
 		case !wa:
 			served = "writer-gone"
@@ -1334,7 +1453,7 @@ func runDupFlush(c *vf.Ctx, cs *caseRec) ([]string, bool) {
 	for !closed(f.done) || x.scheduled.Load() {
 		// F's send is received by the writer, which resets X's flag when it collects it
 		gs := s.snapshot()
-		if fg, found := gdump.Find(gs, f.gid.Load()); !writerAlive(gs) && found && inEnqueueSend(fg) {
+		if fg, found := gdump.Find(gs, f.gid.Load()); !s.writerAlive(gs) && found && inEnqueueSend(fg) {
 			break // rule R1 will decide
 		}
 		if !w.pause() {
@@ -1409,6 +1528,188 @@ func runSlowDone(c *vf.Ctx, cs *caseRec) ([]string, bool) {
 	return s.report("slowdone"), !s.abortAfter
 }
 
+// runMulti: 2-3 BatchedWriters over separate stores are alive at the same time, constructed one
+// after the other (each only after the previous one is running) with DIFFERENT options; one of
+// them may be "extreme" (huge time-out and batch size, constructed with a subset of the options).
+// Every writer has its own producers, log and oracles and is judged with ITS OWN configured
+// options (idle/spin bounds relative to its own time-out); no writer is stopped before all have
+// been constructed. The extreme writer is flushed and then left alone (StopBatchWriter does not
+// wake the writer, so on the unchanged tree it waits up to one batch time-out – out of scope).
+func runMulti(c *vf.Ctx, cs *caseRec) ([]string, bool) {
+	n := len(cs.Subs)
+	constructed := make(chan struct{})
+	started := make([]chan struct{}, n)
+	for i := range started {
+		started[i] = make(chan struct{})
+	}
+	type result struct {
+		fps []string
+		ok  bool
+	}
+	res := make([]result, n)
+	var wg sync.WaitGroup
+	for i := 0; i < n; i++ {
+		i := i
+		wg.Add(1)
+		go func() {
+			defer wg.Done()
+			if i > 0 {
+				<-started[i-1] // the previous writer is running and has accepted an object
+			}
+			sub := cs.Subs[i]
+			parent := *cs
+			sub.MultiOf = &parent
+			s := newScen(c, &sub, max(sub.Objects, 1))
+			s.multi = true
+			s.beforeStop = constructed
+			var once sync.Once
+			signal := func() {
+				once.Do(func() {
+					close(started[i])
+					if i == n-1 {
+						close(constructed)
+					}
+				})
+			}
+			defer signal() // also on early returns, so that nobody waits for ever
+			if sub.Extreme {
+				res[i].fps, res[i].ok = s.extremeBody(signal)
+			} else {
+				st := make(chan struct{})
+				go func() { <-st; signal() }()
+				res[i].fps, res[i].ok = s.stressBody(st)
+				select {
+				case <-st:
+				default:
+					close(st)
+				}
+			}
+		}()
+	}
+	wg.Wait()
+	c.Count("multi_rounds", 1)
+	c.Count("multi_writers", n)
+	ok := true
+	var fps []string
+	for _, r := range res {
+		ok = ok && r.ok
+		fps = append(fps, r.fps...)
+	}
+	return fps, ok
+}
+
+// extremeBody: a writer that only a Flush can make commit.
+func (s *scen) extremeBody(signal func()) ([]string, bool) {
+	cs := s.cs
+	mainA := s.self("main")
+	s.enqueue(mainA, s.objs[0])
+	if !s.probeWriter() {
+		return nil, false
+	}
+	signal()
+	for i := 0; i < cs.Ops; i++ {
+		s.enqueue(mainA, s.objs[i%len(s.objs)])
+	}
+	if s.beforeStop != nil {
+		<-s.beforeStop
+	}
+	s.m.log(ev{K: 'F', P: mainA.idx})
+	s.bw.Flush()
+	w := waiter{m: s.m}
+	for !s.settled() {
+		if !w.pause() {
+			s.c.Inconclusive(cs.name() + ": case guard expired waiting for the Flush of the extreme writer to be served")
+			return nil, false
+		}
+	}
+	// the writer stays behind, parked in its select until its (huge) time-out
+	for _, g := range s.liveWriters(s.snapshot()) {
+		markLeaked(g.ID)
+	}
+	s.writerIdle = true
+	return s.report("extreme"), true
+}
+
+// runFlushK: a Flush that drains several batches and ends on (or next to) a batch boundary while an
+// object of its first batch is updated and enqueued again during the drain, followed by further
+// Enqueues. The writer is held inside the first BatchWrite of the run (object Z, version 1 read);
+// meanwhile k*b+d-2 fresh objects are queued, Z is bumped and enqueued again (its flag was reset
+// before BatchWrite), Flush is called and the writer released: it collects k*b+d objects in total.
+// Once Z's second write is acknowledged, more objects are enqueued; then Stop. Oracles unchanged,
+// in particular check 4 after every Commit (store-regressed-to-older-version) and at the end.
+func runFlushK(c *vf.Ctx, cs *caseRec) ([]string, bool) {
+	total := cs.FlushK*cs.B + cs.FlushD
+	fresh := max(total-2, 0)
+	s := newScen(c, cs, 1+fresh+cs.After)
+	g := &gate{reached: make(chan struct{}), release: make(chan struct{})}
+	s.writeGate = g
+	cur.Store(s)
+	defer cur.Store(nil)
+	mainA := s.self("main")
+	z := s.objs[0]
+	w := waiter{m: s.m}
+	guard := func(what string) ([]string, bool) {
+		c.Inconclusive(cs.name() + ": case guard expired waiting for " + what)
+		if !closed(g.release) {
+			close(g.release)
+		}
+		return nil, false
+	}
+	// a feeder goroutine, so that a small queue (its sends then block until the drain) does not block the script
+	feeder := s.spawn("producer", 0, nil, func(a *actor) {
+		s.enqueue(a, z)
+		<-g.reached
+		for i := 0; i < fresh; i++ {
+			s.enqueue(a, s.objs[1+i])
+		}
+		if total >= 2 {
+			s.enqueue(a, z) // version 2, behind the fresh objects
+		}
+	})
+	for !closed(g.reached) {
+		if !w.pause() {
+			return guard("the first BatchWrite")
+		}
+	}
+	if !s.probeWriter() {
+		close(g.release)
+		return nil, false
+	}
+	// with a queue that holds them all, wait until everything is queued before the Flush; with a
+	// small queue the feeder keeps sending during the drain
+	if cs.Q >= fresh+1 {
+		for !closed(feeder.done) {
+			if !w.pause() {
+				return guard("the objects to be queued")
+			}
+		}
+	}
+	s.m.log(ev{K: 'F', P: mainA.idx})
+	s.bw.Flush()
+	close(g.release)
+	var idle idleTracker
+	for !closed(feeder.done) || !s.settled() {
+		gs := s.snapshot()
+		wg, wa := s.liveWriter(gs)
+		if !wa || idle.observe(s.m, wg, true) >= cs.idleBound() {
+			break // no writer / writer idle for ever: the rules of finishWait decide after Stop
+		}
+		if !w.pause() {
+			return guard("the flush to drain")
+		}
+	}
+	c.Count("flushk_rounds", 1)
+	c.Count(fmt.Sprintf("flushk_total=k*b%+d", cs.FlushD), 1)
+	for i := 0; i < cs.After; i++ {
+		s.enqueue(mainA, s.objs[1+fresh+i])
+	}
+	s.spawn("stopper", 0, nil, func(a *actor) { s.stop(a) })
+	if !s.finishWait() {
+		return nil, false
+	}
+	return s.report(fmt.Sprintf("flushk/k%d/d%+d", cs.FlushK, cs.FlushD)), !s.abortAfter
+}
+
 var sink atomic.Int64
 
 func runColdStart(c *vf.Ctx, cs *caseRec) ([]string, bool) {
@@ -1461,7 +1762,7 @@ func runColdStart(c *vf.Ctx, cs *caseRec) ([]string, bool) {
 		if !pending {
 			break
 		}
-		if gs := s.snapshot(); !writerAlive(gs) {
+		if gs := s.snapshot(); !s.writerAlive(gs) {
 			s.applyNoWriterRules(gs, &stopHung)
 		}
 		if !w.pause() {
@@ -1563,11 +1864,20 @@ func runStress(c *vf.Ctx, cs *caseRec) ([]string, bool) {
 	s := newScen(c, cs, cs.Objects)
 	cur.Store(s)
 	defer cur.Store(nil)
+	return s.stressBody(nil)
+}
+
+// stressBody: started is closed once this writer is running (multi-writer family).
+func (s *scen) stressBody(started chan<- struct{}) ([]string, bool) {
+	cs := s.cs
 	// the writer is started by the first Enqueue; a Stop that precedes the start is a no-op and is
 	// outside the statement, so one object is enqueued before the producers and the stopper run
 	s.enqueue(s.self("main"), s.objs[0])
 	if !s.probeWriter() {
 		return nil, false
+	}
+	if started != nil {
+		close(started)
 	}
 	var opCount atomic.Int64
 	stopSig := make(chan struct{})
@@ -1644,6 +1954,9 @@ func child(c *vf.Ctx) {
 		// the schedule of a stress run is not determined by the seed: repeat until the recorded class shows again
 		cs := b.Cases[0]
 		want := cs.Fingerprint
+		if cs.MultiOf != nil {
+			cs = *cs.MultiOf
+		}
 		cs.Fingerprint, cs.Log, cs.Dump = "", nil, ""
 		reps := 20
 		if cs.Kind == "stress" {
@@ -1761,6 +2074,48 @@ func genCases(c *vf.Ctx) (plain, race []caseRec) {
 			plain = append(plain, coldstart(cf))
 		}
 	}
+	multi := func() caseRec {
+		cs := mk("multi", cfgs[rng.Intn(len(cfgs))])
+		n := 2 + rng.Intn(2)
+		ext := -1
+		if rng.Intn(3) != 0 {
+			ext = rng.Intn(n)
+		}
+		for i := 0; i < n; i++ {
+			cf := cfgs[rng.Intn(len(cfgs))]
+			for lowParallelism && cf.ns <= 1 {
+				cf = cfgs[rng.Intn(len(cfgs))]
+			}
+			sub := caseRec{Kind: "mstress", Idx: cs.Idx, Q: cf.q, B: cf.b, TimeoutNs: cf.ns, CaseSeed: rng.Int63n(1 << 40),
+				Producers: 1 + rng.Intn(3), Objects: 1 + rng.Intn(3), Ops: 4 + rng.Intn(9),
+				FlushPct: []int{0, 5, 20}[rng.Intn(3)], JitterPct: []int{0, 10, 40}[rng.Intn(3)]}
+			sub.StopAt = 1 + rng.Intn(sub.Producers*sub.Ops)
+			if i == ext {
+				sub = caseRec{Kind: "mextreme", Idx: cs.Idx, Extreme: true, Q: 10000, B: 20000, TimeoutNs: int64(time.Hour),
+					Opts: []string{"timeout", "timeout+batch"}[rng.Intn(2)], Objects: 1 + rng.Intn(3), Ops: 3 + rng.Intn(6), CaseSeed: rng.Int63n(1 << 40)}
+				if sub.Opts == "timeout" {
+					sub.B = 10000 // the package default
+				}
+			}
+			cs.Subs = append(cs.Subs, sub)
+		}
+		return cs
+	}
+	for n := c.Pick(80, 1200); n > 0; n-- {
+		plain = append(plain, multi())
+	}
+	flushk := func(cf cfg) caseRec {
+		cs := mk("flushk", cf)
+		cs.FlushK, cs.FlushD, cs.After = 1+rng.Intn(3), rng.Intn(3)-1, 1+rng.Intn(3)
+		return cs
+	}
+	for rep := c.Pick(4, 60); rep > 0; rep-- {
+		for _, cf := range cfgs {
+			if cf.b <= 5 {
+				plain = append(plain, flushk(cf))
+			}
+		}
+	}
 	slowdone := func(cf cfg) caseRec {
 		cs := mk("slowdone", cf)
 		cs.InFlight = 2 + rng.Intn(3)
@@ -1794,7 +2149,18 @@ func genCases(c *vf.Ctx) (plain, race []caseRec) {
 			race = append(race, asRace(enqstop(cf), rep%2 == 0), asRace(enqstop(cf), true))
 			race = append(race, asRace(dupflush(cf), false), asRace(slowdone(cf), false))
 			race = append(race, asRace(coldstart(cf), false), asRace(coldstart(cf), true))
+			if cf.b <= 5 {
+				race = append(race, asRace(flushk(cf), false))
+			}
 		}
+	}
+	for n := c.Pick(30, 450); n > 0; n-- {
+		cs := multi()
+		cs.Race = true
+		for i := range cs.Subs {
+			cs.Subs[i].Race = true
+		}
+		race = append(race, cs)
 	}
 	for n := c.Pick(800, 9000); n > 0; n-- {
 		if cs := stress(); keep(cs, n) {
@@ -1983,7 +2349,7 @@ func run(c *vf.Ctx) {
 		replay(c)
 		return
 	}
-	c.SetRule("one evaluation = one run of the real BatchedWriter (mapdb behind a logging wrapper) whose merged event log is checked after all callers returned or were decided blocked for ever and the writer goroutine exited; runs are gated (producer parked at bw.enqueue.afterRunningCheck / bw.enqueue.beforeSend while StopBatchWriter completes or parks; queue {0,1,2,256} x batch {1,2,5,1000} x time-out {0,1ns,1ms,20ms,-1ms} x 0-3 objects in flight x release early/late), 'Enqueue immediately followed by Stop', duplicate-Enqueue-retracts-while-a-Flush-is-served (one Enqueue held at beforeSend, a duplicate held inside BatchWriteScheduled after it found the flag set), slow-acknowledgement (writer held inside the first BatchWriteDone while Stop is invoked), cold start (fresh writer, 2-8 producers released together for their very first Enqueue, Stop only after all returned), and seeded stress (1-8 producers, 1-4 objects, Flush, jittered yields, Stop at a random operation count), in plain and -race builds; distinct_nontrivial counts distinct (scenario, gate state, queue class, order of yield/flag/send-return/Stop-return/BatchWrite/Commit/Done/Cancel/Batched events from Stop's invocation on) of runs in which at least one Enqueue overlapped StopBatchWriter or an accepted object was still unwritten when Stop was invoked")
+	c.SetRule("one evaluation = one run of the real BatchedWriter (mapdb behind a logging wrapper) whose merged event log is checked after all callers returned or were decided blocked for ever and the writer goroutine exited; runs are gated (producer parked at bw.enqueue.afterRunningCheck / bw.enqueue.beforeSend while StopBatchWriter completes or parks; queue {0,1,2,256} x batch {1,2,5,1000} x time-out {0,1ns,1ms,20ms,-1ms} x 0-3 objects in flight x release early/late), 'Enqueue immediately followed by Stop', duplicate-Enqueue-retracts-while-a-Flush-is-served (one Enqueue held at beforeSend, a duplicate held inside BatchWriteScheduled after it found the flag set), slow-acknowledgement (writer held inside the first BatchWriteDone while Stop is invoked), flush-boundary (Flush while k*b+d objects, k in 1..3, d in -1..1, are collected/queued, one of the first batch re-enqueued during the drain, further Enqueues afterwards), multi-writer (2-3 writers alive together over separate stores, constructed one after the other with different options, optionally one with a huge time-out and batch size that only a Flush commits), cold start (fresh writer, 2-8 producers released together for their very first Enqueue, Stop only after all returned), and seeded stress (1-8 producers, 1-4 objects, Flush, jittered yields, Stop at a random operation count), in plain and -race builds; distinct_nontrivial counts distinct (scenario, gate state, queue class, order of yield/flag/send-return/Stop-return/BatchWrite/Commit/Done/Cancel/Batched events from Stop's invocation on) of runs in which at least one Enqueue overlapped StopBatchWriter or an accepted object was still unwritten when Stop was invoked")
 	plain, race := genCases(c)
 	c.Count("cases_generated_plain", len(plain))
 	c.Count("cases_generated_race", len(race))
@@ -2030,6 +2396,10 @@ func run(c *vf.Ctx) {
 	c.Require("runs_stress", par(c.Pick(1700, 17000)))
 	c.Require("dupflush_windows_entered", c.Pick(200, 3000))
 	c.Require("slowdone_windows_entered", c.Pick(200, 3000))
+	c.Require("multi_rounds", c.Pick(100, 1500))
+	c.Require("runs_mextreme", c.Pick(50, 700))
+	c.Require("flushk_rounds", c.Pick(250, 3800))
+	c.Require("flushk_total=k*b+0", c.Pick(50, 800))
 	c.Require("coldstart_rounds", c.Pick(800, 9000))
 	c.Require("coldstart_rounds_with_overlap", par(c.Pick(300, 3000)))
 	c.Require("writer_probes_seen", par(c.Pick(3000, 40000))) // blindness self-check: the rules did identify writer goroutines
